@@ -9,6 +9,17 @@
       heap-level contexts are the pure lists ctx ++ fields.  [observer_two_index_refuted]: with
       append(co.context, fields...) a sibling's field leaks into another sibling.
 
+   1b. contextObserver.Write (same file):
+        all := make([]zapcore.Field, 0, len(fields)+len(co.context)); all = append(all, co.context...);
+        all = append(all, fields...); co.logs.add(LoggedEntry{ent, all})
+      The recorded entry owns a new array.  [observer_entries_stable]: for every program of With and Write
+      steps on any tree of observers, in any order, under any growth policy, every recorded entry READ AT THE
+      END of the program is the pure list (context of its logger ++ its call-site fields) it was when it was
+      recorded, and [observer_entries_reread]: reading it after any further operations gives what reading
+      it at once gave.  [observer_write_append_refuted]: with all := append(co.context, fields...) the second
+      entry logged through a logger whose context has spare capacity (With(a,b).With(c): len 3, cap 4)
+      overwrites the call-site field of the first.
+
    2. ioCore.With = clone (jsonEncoder.Clone: a buffer no other encoder holds, bytes copied) +
       addFields (appends in place into the clone's buffer).  [clone_fresh_buffer]: every other live
       encoder's bytes are unchanged.  [clone_shared_refuted]: a Clone sharing buf changes the parent. *)
@@ -147,6 +158,142 @@ Proof.
   - apply Forall_app. split; [|constructor; [exact Hvn|constructor]].
     rewrite Forall_forall in *. intros s Hs. now apply Hold, Hv.
 Qed.
+
+(* ---------- recorded entries: With and Write steps, entries re-read at the end ---------- *)
+(* contextObserver.Write.  make() returns an array no existing slice refers to (a new heap index), of
+   exactly len(context)+len(fields) cells; the two appends fill it in place (never beyond its capacity). *)
+Definition obs_write (h : heap) (ctx : slice) (fs : list T) : heap * slice :=
+  let xs := read h ctx ++ fs in
+  (h ++ [xs], {| arr := length h; off := 0; len := length xs; cap := length xs |}).
+(* the variant that re-uses the logger's own array when it has room *)
+Definition obs_write_append (h : heap) (ctx : slice) (fs : list T) : heap * slice := append h ctx fs.
+
+Lemma obs_write_step h ctx fs :
+  read (fst (obs_write h ctx fs)) (snd (obs_write h ctx fs)) = read h ctx ++ fs /\
+  valid (fst (obs_write h ctx fs)) (snd (obs_write h ctx fs)) /\
+  (forall s, valid h s -> read (fst (obs_write h ctx fs)) s = read h s /\ valid (fst (obs_write h ctx fs)) s).
+Proof.
+  unfold obs_write. cbn [fst snd]. set (xs := read h ctx ++ fs).
+  assert (Hnew : cells (h ++ [xs]) {| arr := length h; off := 0; len := length xs; cap := length xs |} = xs).
+  { unfold cells. cbn [arr]. rewrite app_nth2 by lia. now rewrite Nat.sub_diag. }
+  split; [|split].
+  - unfold read. rewrite Hnew. cbn [len off skipn]. apply firstn_all.
+  - unfold valid. rewrite Hnew. cbn [arr off len cap]. rewrite app_length. cbn [length]. lia.
+  - intros s (S1 & S2 & S3).
+    assert (Hc : cells (h ++ [xs]) s = cells h s) by (unfold cells; now rewrite app_nth1).
+    unfold read, valid. rewrite Hc, app_length. cbn [length]. repeat split; auto; lia.
+Qed.
+
+Inductive oop := OWith (p : nat) (fs : list T) | OWrite (p : nat) (fs : list T).
+Record ostate := { oheap : heap; oobs : list slice; ologs : list slice }.
+Section Run.
+Variable wr : heap -> slice -> list T -> heap * slice.      (* the Write under consideration *)
+Fixpoint orunw (st : ostate) (ops : list oop) : ostate :=
+  match ops with
+  | [] => st
+  | OWith p fs :: r =>
+      match nth_error (oobs st) p with
+      | Some ctx => orunw {| oheap := fst (obs_with (oheap st) ctx fs);
+                             oobs := oobs st ++ [snd (obs_with (oheap st) ctx fs)]; ologs := ologs st |} r
+      | None => orunw st r
+      end
+  | OWrite p fs :: r =>
+      match nth_error (oobs st) p with
+      | Some ctx => orunw {| oheap := fst (wr (oheap st) ctx fs); oobs := oobs st;
+                             ologs := ologs st ++ [snd (wr (oheap st) ctx fs)] |} r
+      | None => orunw st r
+      end
+  end.
+End Run.
+(* the pure reading: contexts and recorded entries are values *)
+Fixpoint prunw (ctxs logs : list (list T)) (ops : list oop) : list (list T) * list (list T) :=
+  match ops with
+  | [] => (ctxs, logs)
+  | OWith p fs :: r =>
+      match nth_error ctxs p with
+      | Some ctx => prunw (ctxs ++ [ctx ++ fs]) logs r
+      | None => prunw ctxs logs r
+      end
+  | OWrite p fs :: r =>
+      match nth_error ctxs p with
+      | Some ctx => prunw ctxs (logs ++ [ctx ++ fs]) r
+      | None => prunw ctxs logs r
+      end
+  end.
+Definition oreads (st : ostate) : list (list T) * list (list T) :=
+  (map (read (oheap st)) (oobs st), map (read (oheap st)) (ologs st)).
+Definition ovalid (st : ostate) : Prop := Forall (valid (oheap st)) (oobs st) /\ Forall (valid (oheap st)) (ologs st).
+
+Lemma Forall_keep (h h' : heap) (l : list slice) :
+  (forall s, valid h s -> read h' s = read h s /\ valid h' s) -> Forall (valid h) l ->
+  map (read h') l = map (read h) l /\ Forall (valid h') l.
+Proof.
+  intros Hk Hv. split.
+  - apply map_ext_in. intros s Hs. rewrite Forall_forall in Hv. now apply Hk, Hv.
+  - rewrite Forall_forall in *. intros s Hs. now apply Hk, Hv.
+Qed.
+
+(* every logger's context and EVERY RECORDED ENTRY, read in the final heap, is its pure value *)
+Theorem observer_entries_stable ops : forall st, ovalid st ->
+  oreads (orunw obs_write st ops) = prunw (fst (oreads st)) (snd (oreads st)) ops /\ ovalid (orunw obs_write st ops).
+Proof.
+  induction ops as [|[p fs|p fs] r IH]; intros st [Ho Hl]; [split; [reflexivity|now split]| |];
+    cbn [orunw prunw]; unfold oreads at 2 3; cbn [fst snd]; rewrite nth_error_map;
+    destruct (nth_error (oobs st) p) as [ctx|] eqn:E; cbn [option_map]; try (apply IH; now split).
+  - assert (Hc : valid (oheap st) ctx). { rewrite Forall_forall in Ho. apply Ho. eapply nth_error_In; exact E. }
+    destruct (obs_with_step (oheap st) ctx fs Hc) as (Hr & Hvn & Hold).
+    destruct (Forall_keep _ _ _ Hold Ho) as [Ro Vo]. destruct (Forall_keep _ _ _ Hold Hl) as [Rl Vl].
+    set (st1 := {| oheap := fst (obs_with (oheap st) ctx fs); oobs := oobs st ++ [snd (obs_with (oheap st) ctx fs)]; ologs := ologs st |}).
+    assert (V1 : ovalid st1).
+    { split; cbn [st1 oheap oobs ologs]; [|exact Vl]. apply Forall_app. split; [exact Vo|constructor; [exact Hvn|constructor]]. }
+    destruct (IH st1 V1) as [I1 I2]. split; [|exact I2]. rewrite I1. unfold oreads. cbn [st1 oheap oobs ologs fst snd].
+    rewrite map_app. cbn [map]. now rewrite Hr, Ro, Rl.
+  - destruct (obs_write_step (oheap st) ctx fs) as (Hr & Hvn & Hold).
+    destruct (Forall_keep _ _ _ Hold Ho) as [Ro Vo]. destruct (Forall_keep _ _ _ Hold Hl) as [Rl Vl].
+    set (st1 := {| oheap := fst (obs_write (oheap st) ctx fs); oobs := oobs st; ologs := ologs st ++ [snd (obs_write (oheap st) ctx fs)] |}).
+    assert (V1 : ovalid st1).
+    { split; cbn [st1 oheap oobs ologs]; [exact Vo|]. apply Forall_app. split; [exact Vl|constructor; [exact Hvn|constructor]]. }
+    destruct (IH st1 V1) as [I1 I2]. split; [|exact I2]. rewrite I1. unfold oreads. cbn [st1 oheap oobs ologs fst snd].
+    rewrite map_app. cbn [map]. now rewrite Hr, Ro, Rl.
+Qed.
+
+(* the pure program only ever ADDS entries *)
+Lemma prunw_app a : forall b cs ls,
+  prunw cs ls (a ++ b) = prunw (fst (prunw cs ls a)) (snd (prunw cs ls a)) b.
+Proof.
+  induction a as [|[p fs|p fs] r IH]; intros b cs ls; cbn [app prunw]; [reflexivity| |];
+    destruct (nth_error cs p); apply IH.
+Qed.
+Lemma prunw_logs_prefix ops : forall cs ls, exists rest, snd (prunw cs ls ops) = ls ++ rest.
+Proof.
+  induction ops as [|[p fs|p fs] r IH]; intros cs ls; cbn [prunw].
+  - exists []. now rewrite app_nil_r.
+  - destruct (nth_error cs p); apply IH.
+  - destruct (nth_error cs p) as [ctx|]; [|apply IH].
+    destruct (IH cs (ls ++ [ctx ++ fs])) as [rest Hr]. exists ((ctx ++ fs) :: rest). rewrite Hr. now rewrite <- app_assoc.
+Qed.
+Lemma orunw_app wr a : forall b st, orunw wr st (a ++ b) = orunw wr (orunw wr st a) b.
+Proof.
+  induction a as [|[p fs|p fs] r IH]; intros b st; cbn [app orunw]; [reflexivity| |];
+    destruct (nth_error (oobs st) p); apply IH.
+Qed.
+
+(* snapshot twice: the entries recorded by [ops1], read again after ANY further operations [ops2]
+   (later entries of the same logger, of any other logger, later derivations), are what they were when
+   read immediately after [ops1] *)
+Theorem observer_entries_reread ops1 ops2 st : ovalid st ->
+  firstn (length (ologs (orunw obs_write st ops1)))
+         (snd (oreads (orunw obs_write st (ops1 ++ ops2)))) = snd (oreads (orunw obs_write st ops1)).
+Proof.
+  intros Hv. rewrite orunw_app.
+  destruct (observer_entries_stable ops1 st Hv) as [E1 V1].
+  destruct (observer_entries_stable ops2 _ V1) as [E2 _].
+  rewrite E2. destruct (prunw_logs_prefix ops2 (fst (oreads (orunw obs_write st ops1))) (snd (oreads (orunw obs_write st ops1)))) as [rest Hr].
+  rewrite Hr. unfold oreads at 1. cbn [snd].
+  replace (length (ologs (orunw obs_write st ops1))) with (length (map (read (oheap (orunw obs_write st ops1))) (ologs (orunw obs_write st ops1)))) by apply map_length.
+  change (map (read (oheap (orunw obs_write st ops1))) (ologs (orunw obs_write st ops1))) with (snd (oreads (orunw obs_write st ops1))).
+  rewrite firstn_app, Nat.sub_diag, firstn_all. cbn [firstn]. apply app_nil_r.
+Qed.
 End Slices.
 
 (* the two-index variant: runtime growth by doubling, a chain of three Withs leaves spare capacity,
@@ -175,6 +322,22 @@ Proof. vm_compute. split; [discriminate|reflexivity]. Qed.
 Example observer_three_index_witness :
   let '(h, obs) := orun nat 0 double_cap [[]] [nil_slice] alias_witness in
   map (read nat h) obs = [[]; [1]; [1; 2]; [1; 2; 3]; [1; 2; 3; 10]; [1; 2; 3; 20]].
+Proof. vm_compute. reflexivity. Qed.
+
+(* Write re-using the logger's array: With(1,2).With(3) leaves len 3, cap 4; two entries logged through
+   that logger with one call-site field each share cell 3 *)
+Definition write_witness : list (oop nat) := [OWith nat 0 [1; 2]; OWith nat 1 [3]; OWrite nat 2 [10]; OWrite nat 2 [20]].
+Definition ost0 : ostate nat := {| oheap := [[]]; oobs := [nil_slice]; ologs := [] |}.
+Lemma observer_write_append_refuted :
+  let st := orunw nat 0 double_cap (obs_write_append nat 0 double_cap) ost0 write_witness in
+  snd (oreads nat st) <> snd (prunw nat [[]] [] write_witness) /\
+  snd (oreads nat st) = [[1; 2; 3; 20]; [1; 2; 3; 20]] /\
+  (* ... although each entry, read immediately after its own call, was right *)
+  snd (oreads nat (orunw nat 0 double_cap (obs_write_append nat 0 double_cap) ost0 (firstn 3 write_witness))) = [[1; 2; 3; 10]].
+Proof. vm_compute. split; [discriminate|split; reflexivity]. Qed.
+(* the same program under the code as it is *)
+Example observer_write_witness :
+  snd (oreads nat (orunw nat 0 double_cap (obs_write nat) ost0 write_witness)) = [[1; 2; 3; 10]; [1; 2; 3; 20]].
 Proof. vm_compute. reflexivity. Qed.
 
 (* ---------- encoder buffers ---------- *)
